@@ -641,7 +641,8 @@ func (x *Exec) appendOp(st *State, fr *Frame, in ssa.Instruction, cc *ssa.CallCo
 	x.setArr(st, name, srt, app("store", arr, r, na))
 	nl := x.define(st, "len", "Int", app("+", slen, tlen))
 	nc := x.declare(st, "cap", "Int")
-	x.assume(st, app(">=", nc, nl))
+	x.note("memory is finite: no slice has more than 2^48 elements (an append that would exceed it fails in the runtime, not in the code under contract)")
+	x.assume(st, and(app(">=", nc, nl), app("<=", nc, "281474976710656")))
 	return Term{x.define(st, "sl", "Slice", app("mk_Slice", r, "0", nl, nc)), sT}
 }
 
